@@ -85,8 +85,12 @@ impl MergedServerSelection {
     pub fn reachable_variables(&self) -> BTreeSet<VariableNameWrapper> {
         match self {
             MergedServerSelection::ScalarField(field) => get_variables(&field.arguments).collect(),
-            MergedServerSelection::ClientObjectSelectable(field)
-            | MergedServerSelection::LinkedField(field) => get_variables(&field.arguments)
+            // A client pointer is not part of the operation (neither the query text nor the
+            // normalization AST print anything for it; what is below it is fetched by the
+            // pointer's own refetch query), so the variables it uses are not variables of the
+            // operation. Declaring them made the operation invalid ("variable is never used").
+            MergedServerSelection::ClientObjectSelectable(_) => BTreeSet::new(),
+            MergedServerSelection::LinkedField(field) => get_variables(&field.arguments)
                 .chain(
                     field
                         .selection_map
